@@ -518,3 +518,9 @@ func PingConn(conn grpc.ClientConnInterface, timeout time.Duration) (string, err
 	}
 	return resp.Msg, nil
 }
+
+// CmdServiceDesc exposes the hand-written service descriptor (impostor servers).
+func CmdServiceDesc() *grpc.ServiceDesc { return &cmdServiceDesc }
+
+// NewGRPCCmdServer builds a command server without a broker.
+func NewGRPCCmdServer(sh *Shared) any { return &grpcCmdServer{im: &impl{sh: sh, objTag: "raw"}} }
